@@ -68,8 +68,8 @@ void ThreadPool::terminate()
     terminate_ = true;
     // wake up all worker threads and let them terminate.
     cv_jobs_.notify_all();
-    // notify LoopUntilTerminate in case all threads are idle.
-    cv_finished_.notify_one();
+    // notify all LoopUntilTerminate waiters in case all threads are idle.
+    cv_finished_.notify_all();
 }
 
 size_t ThreadPool::done() const
